@@ -467,7 +467,16 @@ func init() {
 		Rule: "E1: breadth-first search over real HTTP requests pushed through the composed application (states = canonicalised database + per-browser jars + oracle memory); every transition that changes a session's user must be justified by ground truth; classes = distinct justification kinds and rejected-attempt kinds hit",
 		Units: func(tier string) []engine.Unit {
 			scs := c01Scenarios(tier)
-			vs := configVariants(scs, tier, "nil-state", "err500", "nomount")
+			var vs []engine.Scenario
+			if tier == "thorough" {
+				vs = configVariants(scs, tier, "nil-state", "err500", "nomount")
+			} else {
+				// quick: one deployment variant each, on the scenario where it matters most
+				vs = append(vs, configVariants(from(scs, "S2-otp-remember"), tier, "nil-state")...)
+				vs = append(vs, configVariants(from(scs, "S4-2fa"), tier, "err500")...)
+				vs = append(vs, configVariants(from(scs, "S5-oauth2"), tier, "nomount")...)
+				vs = append(vs, configVariants(from(scs, "S3-register-confirm-recover"), tier, "json")...)
+			}
 			vs = append(vs, configVariants(scs[1:], tier, "faults")...)
 			return e1Units(append(scs, vs...))
 		},
